@@ -72,6 +72,8 @@ type obsStream struct {
 	Vopen   []int       `json:"vopen"`   // full Get when the stream was opened
 	Mask    obsMask     `json:"mask"`    // read mask of the Pull request
 	Sub     []int       `json:"sub"`     // as obs.sub, for the value current when the stream was opened
+	Psub    []int       `json:"psub"`    // as obs.sub, under this stream's mask, for the unmasked Get before the step
+	Rsub    []int       `json:"rsub"`    // ... for the Update's response
 	Msgs    []obsChange `json:"msgs"`    // every change read from the stream during this step, in order
 }
 type obs struct {
@@ -192,7 +194,8 @@ type session struct {
 	nextSid int
 	lastVal int // value index of the last successful Update (0: none)
 
-	armed        bool // a timed update succeeded and no plain Update has succeeded since
+	preMsg       proto.Message // the unmasked Get before the current step
+	armed        bool          // a timed update succeeded and no plain Update has succeeded since
 	timedPending bool // a timed update was made since the last Wait
 }
 
@@ -425,7 +428,55 @@ func (s *session) drain(ps *pullStream) []obsChange {
 
 func (s *session) snapshot(ps *pullStream) obsStream {
 	return obsStream{Sid: ps.sid, Name: ps.name, Uo: ps.uo, Fresh: ps.nread == 0, Quiet: ps.pending == 0,
-		Ended: ps.ended, Vopen: ps.vopen, Msgs: []obsChange{}, Mask: ps.mask, Sub: ps.sub}
+		Ended: ps.ended, Vopen: ps.vopen, Msgs: []obsChange{}, Mask: ps.mask, Sub: ps.sub,
+		Psub: s.subVec(ps.mask, s.preMsg), Rsub: zeros(s.tr.res.Fields().Len())}
+}
+
+// subVec: for every top-level field of which om selects sub-fields only, the number of m's field restricted to them.
+func (s *session) subVec(om obsMask, m proto.Message) []int {
+	res := zeros(s.tr.res.Fields().Len())
+	for _, idx := range om.Nested {
+		res[idx-1] = absSubField(s.tr.res, m, idx-1, om.sub[idx])
+	}
+	return res
+}
+
+// projVec is Stack!Project on the harness side (used only to decide what to wait for).
+func projVec(v []int, om obsMask, sub []int) []int {
+	if om.Nil {
+		return v
+	}
+	res := make([]int, len(v))
+	for _, idx := range om.Paths {
+		if idx >= 1 {
+			res[idx-1] = v[idx-1]
+		}
+	}
+	for _, idx := range om.Nested {
+		res[idx-1] = sub[idx-1]
+	}
+	return res
+}
+
+// deliver: after a successful Update every open stream must show the response as seen through the stream's read
+// mask, if that differs from what the stream showed before; the harness reads each stream until it does.
+func (s *session) deliver(o *obs, respMsg proto.Message, err error) {
+	for _, ps := range s.streams {
+		sn := s.snapshot(ps)
+		sn.Rsub = s.subVec(ps.mask, respMsg)
+		want := projVec(o.Resp, ps.mask, sn.Rsub)
+		before := projVec(o.Pre.V, ps.mask, sn.Psub)
+		switch {
+		case err == nil && o.Pre.Ok && !sameVec(want, before):
+			sn.Awaited = true
+			sn.Msgs, sn.Timeout = s.await(ps, want)
+			sn.Ended = ps.ended
+			ps.pending = 0
+		case err == nil:
+			ps.pending++
+		}
+		o.Streams = append(o.Streams, sn)
+	}
 }
 
 func (s *session) open(name string, uo bool, vopen []int) *pullStream {
@@ -529,6 +580,7 @@ func (s *session) run(h genHist) {
 		hx.Current(map[string]any{"target": s.tg.ID, "hist": h.N, "step": k + 1, "op": op})
 		var preMsg proto.Message
 		o.Pre, preMsg = s.fullGetMsg()
+		s.preMsg = preMsg
 		switch op.Op {
 		case "Get":
 			req := s.request(s.tr.get, s.tr.getName, name)
@@ -570,30 +622,23 @@ func (s *session) run(h genHist) {
 			o.Code, o.Panic = errCode(err)
 			o.Resp = absMsg(s.tr.res, m)
 			o.Post = s.fullGet()
-			changed := err == nil && o.Pre.Ok && !sameVec(o.Resp, o.Pre.V)
 			if err == nil && kind == "good" {
 				s.lastVal = s.goodIndex(op.Val) + 1
 			}
 			if err == nil {
 				s.armed = false
 			}
-			for _, ps := range s.streams {
-				sn := s.snapshot(ps)
-				if changed {
-					sn.Awaited = true
-					sn.Msgs, sn.Timeout = s.await(ps, o.Resp)
-					sn.Ended = ps.ended
-					ps.pending = 0
-				} else if err == nil {
-					ps.pending++
-				}
-				o.Streams = append(o.Streams, sn)
-			}
+			s.deliver(&o, m, err)
 		case "OpenPull":
 			for _, ps := range s.streams {
 				o.Streams = append(o.Streams, s.snapshot(ps))
 			}
-			ps := s.open(name, op.Uo, o.Pre.V)
+			fm, om := s.mask(op.Mask, true)
+			if s.tr.pullMask == nil {
+				fm, om = nil, obsMask{Nil: true, Paths: []int{}, Nested: []int{}}
+			}
+			o.Mask = om
+			ps := s.openMasked(name, op.Uo, o.Pre.V, fm, om, s.subVec(om, preMsg))
 			sn := s.snapshot(ps)
 			sn.Opened = true
 			if !op.Uo {
